@@ -173,7 +173,7 @@ def reply (cfg : Cfg) (s : St) (id : Nat) (ok : Bool) : St × List Out :=
   | some l =>
     let rc := s.recs l.ri
     let s1 := { setRec s l.ri { rc with cred := if ok then .ok else .failed, expire := s.now, queue := [] }
-                with lookups := s.lookups.filter (fun x => x.id ≠ id) }
+                with lookups := s.lookups.erase l }
     let t := resumeAll cfg l.ri s1 (l.req :: rc.queue)
     (t.1, .verdict id rc.user l.pw ok s.now :: t.2)
 
